@@ -37,6 +37,11 @@ JudgeLit(e) ==
               ELSE IF e.ach \notin {"exact", "w50"} THEN "float further than 2^-50 from the true value"
               ELSE IF ClassOfDecimal(e.text, e.fast) = "exact" /\ e.ach # "exact" THEN "literal not correctly rounded where the documentation promises it"
               ELSE IF d.d = Zero /\ e.res.n.neg # d.neg THEN "sign of zero lost"
+              \* independent of the harness's accuracy measurement: a literal of at most 15 significant digits in the
+              \* normal range is the shortest decimal form of its own (correctly rounded) double
+              ELSE IF e.ach = "exact" /\ d.d # Zero /\ DigitComparable([t |-> "flt", d |-> d.d, e |-> d.e])
+                      /\ e.res.n # [t |-> "flt", neg |-> d.neg, d |-> d.d, e |-> d.e]
+                   THEN "the float read is reported as correctly rounded but its shortest digits are not the literal's"
               ELSE "ok"
          [] d.t = "range" -> IF e.res.r = "err" THEN "ok" ELSE "magnitude beyond the largest double accepted"
          [] OTHER -> "ok"
